@@ -599,6 +599,227 @@ def nontrivial_sync(c, obs):
     return any(e["woken"] for e in obs["trace"] if e["op"][0] == "rel")
 
 
+# --------------------------------------------------------------------------- ConnectionPool inside a real Simulation
+def _poll_count(timeout):
+    poll = min(0.1, timeout / 10)
+    n, elapsed = 0, 0.0
+    while elapsed < timeout:
+        elapsed += poll
+        n += 1
+    return n
+
+
+def gen_pool(rng):
+    mx = rng.choice([1, 1, 2, 2, 3])
+    mn = rng.choice([0, 0, 0, 1]) if mx > 1 else 0
+    nw = rng.randint(2, 6)
+    burst = rng.random() < 0.5
+    lat = rng.choice([1_000_000, 5_000_000, 10_000_000])            # set-up latency (ns)
+    timeout = rng.choice([0.02, 0.05, 0.25, 1.0])
+    idle_timeout = rng.choice([0.03, 0.05, 60.0])
+    workers = []
+    for _ in range(nw):
+        at = rng.choice([0, 0, 1000]) if burst else rng.choice([0, 500_000, 2_000_000, 6_000_000, 20_000_000])
+        script = []
+        for _ in range(rng.choice([1, 1, 2])):
+            script += [["acq", 0], ["hold", rng.choice([0, 1_000_000, 4_000_000, 30_000_000, 80_000_000])], ["rel", 0]]
+            if rng.random() < 0.4:
+                script.append(["hold", rng.choice([1_000_000, 20_000_000, 50_000_000])])
+        workers.append(dict(at=at, script=script))
+    return dict(kind="pool", max=mx, min=mn, lat=lat, timeout=timeout, idle_timeout=idle_timeout, workers=workers)
+
+
+def impl_pool(c):
+    from happysimulator import Entity, Event, Instant, Simulation
+    from happysimulator.components.client.connection_pool import ConnectionPool
+    from happysimulator.distributions.constant import ConstantLatency
+    from hsverif.util import run_bounded
+
+    class Target(Entity):
+        def handle_event(self, event):
+            return None
+
+    tgt = Target("t")
+    pool = ConnectionPool("p", tgt, min_connections=c["min"], max_connections=c["max"],
+                          connection_timeout=c["timeout"], idle_timeout=c["idle_timeout"],
+                          connection_latency=ConstantLatency(c["lat"] / 1e9))
+    trace, wlog = [], []
+
+    def snap():
+        st = pool.stats
+        return dict(k=[pool.total_connections, pool.pending_requests, st.connections_created, st.connections_closed,
+                       st.acquisitions, st.releases, st.timeouts],
+                    idle=[x.id for x in pool._idle_connections], active=list(pool._active_connections.keys()))
+
+    def rec(op, code, arg=0):
+        if len(trace) < 400:
+            trace.append(dict(op=op, code=code, arg=arg, **snap()))
+
+    orig_idle = pool._handle_idle_timeout
+
+    def traced_idle(event):
+        md = event.context.get("metadata", {})
+        cid, exp = md.get("connection_id"), md.get("expected_last_used")
+        before = (pool.total_connections, [x.id for x in pool._idle_connections])
+        r = orig_idle(event)
+        if pool.total_connections < before[0]:
+            code = 6
+        elif r:
+            code = 7
+        else:
+            code = 8
+        rec(["idle", cid, exp.nanoseconds, pool.now.nanoseconds], code)
+        return r
+
+    pool._handle_idle_timeout = traced_idle
+
+    class Worker(Entity):
+        def __init__(self, idx, script):
+            super().__init__(f"w{idx}")
+            self.idx, self.script, self.done, self.timeouts = idx, script, False, 0
+
+        def handle_event(self, event):
+            i = self.idx
+            conn = None
+            skip = False
+            for st in self.script:
+                ns = lambda: self.now.nanoseconds  # noqa: E731
+                if skip:
+                    if st[0] == "rel":
+                        skip = False
+                    continue
+                if st[0] == "hold":
+                    yield st[1] / 1e9
+                elif st[0] == "acq":
+                    wlog.append(["request", i, ns()])
+                    gen = pool.acquire()
+                    nq = pool.pending_requests
+                    try:
+                        v = next(gen)
+                    except StopIteration as e:
+                        conn = e.value
+                        rec(["start", i, 0, ns()], 0, conn.id)
+                        wlog.append(["acquired", i, ns(), conn.id])
+                        continue
+                    waiting = pool.pending_requests > nq
+                    rec(["start", i, 0, ns()], 2 if waiting else 1)
+                    while True:
+                        x = yield v
+                        try:
+                            v = gen.send(x)
+                        except StopIteration as e:
+                            conn = e.value
+                            rec(["poll" if waiting else "created", i, 0, ns()], 0, conn.id)
+                            wlog.append(["acquired", i, ns(), conn.id])
+                            break
+                        except TimeoutError:
+                            rec(["poll", i, 0, ns()], 3)
+                            wlog.append(["timeout", i, ns()])
+                            conn = None
+                            skip = True
+                            self.timeouts += 1
+                            break
+                        rec(["poll" if waiting else "created", i, 0, ns()], 2 if waiting else 1)
+                elif st[0] == "rel":
+                    nq = [w[0] for w in pool._waiters]
+                    evs = pool.release(conn)
+                    after = [w[0] for w in pool._waiters]
+                    if len(after) < len(nq):
+                        code, arg = 4, waiter_client.get(nq[0], -1)
+                    elif conn.id in [x.id for x in pool._idle_connections]:
+                        code, arg = 5, 0
+                    else:
+                        code, arg = 9, 0
+                    rec(["rel", i, conn.id, ns()], code, arg)
+                    wlog.append(["rel", i, ns(), conn.id])
+                    conn = None
+                    if evs:
+                        yield 0.0, evs
+            self.done = True
+
+    waiter_client = {}
+    orig_append = None
+    workers = [Worker(i, w["script"]) for i, w in enumerate(c["workers"])]
+
+    # map waiter ids to clients: the pool numbers waiters 1, 2, ... in the order of the "start" steps that queued
+    class _Reg(dict):
+        pass
+
+    sim = Simulation(entities=[tgt, pool] + workers, end_time=Instant.from_seconds(4.0))   # min_connections > 0 re-arms the idle timer forever
+    for w, spec in zip(workers, c["workers"]):
+        sim.schedule(Event(time=Instant(spec["at"]), event_type="go", target=w))
+    # waiter id -> client is reconstructed from the trace afterwards (ids are consecutive)
+    def fill_waiters():
+        n = 0
+        for e in trace:
+            if e["op"][0] == "start" and e["code"] == 2:
+                n += 1
+                waiter_client[n] = e["op"][1]
+    # release needs the mapping while running: keep it current through a cheap hook
+    orig_rec = rec
+    def rec2(op, code, arg=0):                # noqa: E306
+        orig_rec(op, code, arg)
+        if op[0] == "start" and code == 2:
+            waiter_client[pool._next_waiter_id] = op[1]
+    rec = rec2                                # noqa: F841  (closures above look `rec` up at call time)
+    summary, verdict = run_bounded(sim, max_events_per_instant=600, max_events=20000, wall_s=20.0)
+    return dict(trace=trace, wlog=wlog, verdict=verdict, done=[w.done for w in workers],
+                timeouts=[w.timeouts for w in workers], final=snap(), polls=_poll_count(c["timeout"]))
+
+
+def encode_pool(c, obs):
+    steps = []
+    for e in obs["trace"]:
+        name, i, a, now = e["op"]
+        if name == "start":
+            op = Ctor("PAcqStart", i)
+        elif name == "created":
+            op = Ctor("PCreateDone", i)
+        elif name == "poll":
+            op = Ctor("PPoll", i)
+        elif name == "rel":
+            op = Ctor("PRelease", i, a, now)
+        else:
+            op = Ctor("PIdleTimeout", i, a)
+        steps.append((op, (e["code"], e["arg"], e["k"], e["idle"], e["active"])))
+    return term((c["max"], c["min"], obs["polls"], steps))
+
+
+def oracle_pool(c, obs):
+    out = []
+    mx = c["max"]
+    if obs["verdict"] != "ok":
+        return [dict(clause="waiting consumes no simulated activity", verdict=obs["verdict"])]
+    queue = []
+    for n, e in enumerate(obs["trace"]):
+        k = e["k"]
+        if len(e["active"]) > mx or k[0] > mx:
+            out.append(dict(clause="a connection pool never has more connections than max_connections", mechanism="slot-counted-after-setup",
+                            step=n, active=len(e["active"]), total=k[0], max=mx))
+            return out
+        if len(set(e["active"])) != len(e["active"]) or set(e["active"]) & set(e["idle"]):
+            out.append(dict(clause="a connection is held by at most one client", step=n, active=e["active"], idle=e["idle"]))
+            return out
+        if e["op"][0] == "start" and e["code"] == 2:
+            queue.append(e["op"][1])
+        if e["op"][0] == "rel" and e["code"] == 4:
+            if not queue or e["arg"] != queue[0]:
+                out.append(dict(clause="blocked acquirers are served in arrival order", step=n, got=e["arg"], queue=list(queue)))
+                return out
+            queue.pop(0)
+        if e["op"][0] == "poll" and e["code"] == 3 and e["op"][1] in queue:
+            queue.remove(e["op"][1])
+        if k[1] and (e["idle"] or k[0] < mx):
+            out.append(dict(clause="granted as soon as capacity allows", step=n, pending=k[1], idle=e["idle"], total=k[0]))
+            return out
+    # every connection handed out is eventually given back; nobody is left blocked
+    if not all(obs["done"]):
+        out.append(dict(clause="every waiter whose predecessor releases is eventually served", done=obs["done"]))
+    if obs["final"]["active"]:
+        out.append(dict(clause="held plus available equals capacity (no leaked connection)", final=obs["final"]))
+    return out
+
+
 ROBS = "Z * list (rop * robs)"
 
 FAMILIES = [
@@ -617,6 +838,9 @@ FAMILIES = [
     Family("rwlock_sim", IMPORTS, "ok_rwlock", "option Z * list (rwop * sobs)", gen_sync("rwlock"), impl_sync, encode_sync,
            oracle_sync, nontrivial_sync, attribute_sync, parallel=True,
            describe=lambda c: f"max={c['cap']},workers={len(c['workers'])}"),
+    Family("pool_sim", IMPORTS, "ok_pool", "Z * Z * Z * list (pop * pobs)", gen_pool, impl_pool, encode_pool,
+           oracle_pool, lambda c, o: any(e["code"] == 4 for e in o["trace"]), parallel=True,
+           describe=lambda c: f"max={c['max']},workers={len(c['workers'])}"),
 ]
 
 TRUSTED = [
@@ -626,7 +850,7 @@ TRUSTED = [
     "model choices: amounts and capacities are integers (Z); client/grant identities are creation indices; time is an explicit input of each operation",
 ]
 
-COQ_FILES = ["C09/Model.v", "C09/Resource.v", "C09/Sync.v", "C09/Props.v"]
+COQ_FILES = ["C09/Model.v", "C09/Resource.v", "C09/Sync.v", "C09/Limits.v", "C09/Pool.v", "C09/Props.v"]
 
 
 class _Sharded:
@@ -650,7 +874,11 @@ def run(ctx):
     sctx = _Sharded(ctx)
     ctx.prove(COQ_FILES, allowed_axioms=(), trusted_base=TRUSTED)
     stats = []
+    import os
+    only = os.environ.get("C09_FAMILIES")
     for fam in FAMILIES:
+        if only and fam.name not in only.split(","):
+            continue
         n = ctx.n(120, 2500) if fam.parallel else ctx.n(300, 6000)
         stats.append(run_family(sctx, fam, n))
         ctx.log(f"family {fam.name}: {stats[-1]['cases']} cases, {stats[-1]['mismatches']} mismatches, {stats[-1]['oracle_failures']} oracle failures ({stats[-1]['known']} known)")
